@@ -9,7 +9,7 @@ import sem
 
 TEXT_TYPES = ["", "", "ascii", "braille", "custom"]
 SUFFIX = {"": "$", "ascii": "\\0", "braille": "$"}
-WORDS = ["Hello", "world", "é", "ñandú", "{PLAYER}", "It's", "a", "b", "…", "Go!"]
+WORDS = ["Hello", "world", "é", "ñandú", "{PLAYER}", "It's", "a", "b", "…", "Go!", "50%", "%s", "100%!"]
 
 def terminated(content, typ):
     suf = SUFFIX.get(typ)
@@ -72,7 +72,8 @@ class TopGen:
                     content = r.choice(pool) if r.random() < 0.5 else gen_content(r)
                     if r.random() < 0.15 and content: content += "\nsecond line"
                     typ = r.choice(TEXT_TYPES)
-                    body[i] = ("cmd", "%s(%s)" % (name, string_lit(r, content, typ)), None)
+                    pre_arg = "F(1, 2), " if r.random() < 0.2 else ""       # a comma inside parentheses before the text
+                    body[i] = ("cmd", "%s(%s%s)" % (name, pre_arg, string_lit(r, content, typ)), None)
                     self.textcmds.append((owner, name, terminated(content, typ), typ))
                 else:
                     steps = [r.choice(["walk_up", "walk_down", "face_left"]) for _ in range(r.randint(0, 3))]
@@ -149,7 +150,10 @@ class TopGen:
             elif x < 0.6 and not self.plain:
                 name = self.fresh("Text"); typ = r.choice(TEXT_TYPES); content = gen_content(r)
                 self.items.append(("text", name, scope, (terminated(content, typ), typ)))
-                src.append("text%s %s {\n  %s\n}\n" % (sc, name, string_lit(r, content, typ)))
+                if r.random() < 0.25:       # the same text as the selected case of a poryswitch body (switch V=ZZ)
+                    src.append("text%s %s {\n  poryswitch(V) { A: \"other\" ZZ { %s } _: \"fallback\" }\n}\n" % (sc, name, string_lit(r, content, typ)))
+                else:
+                    src.append("text%s %s {\n  %s\n}\n" % (sc, name, string_lit(r, content, typ)))
             elif x < 0.7:
                 name = self.fresh("Move"); steps = [r.choice(["walk_up", "walk_down * 2", "face_left", "step_end"]) for _ in range(r.randint(0, 4))]
                 self.items.append(("movement", name, scope, steps))
@@ -171,7 +175,7 @@ class TopGen:
                         ents.append(("inline", typ, owner, body, labels)); s += "  %s {\n%s  }\n" % (typ, p_block(body, 2))
                     else:
                         rows = []; s += "  %s [\n" % typ
-                        for j in range(r.randint(0, 3)):
+                        for j in range(r.randint(0, 3) if r.random() < 0.9 else r.randint(11, 14)):      # now and then a long table
                             vsrc, vexp, csrc, cexp = "VAR_T", "VAR_T", str(j), str(j)
                             if self.tconsts and r.random() < 0.5:
                                 # constants inside (multi-token) table variables and values
@@ -226,6 +230,7 @@ class TopGen:
 def top_case(rnd, tier, cfgkw=None, ntop=None, clash=False, porywrap=False, fmt=False, tconsts=False):
     tg = TopGen(rnd, tier, clash=clash, porywrap=porywrap, fmt=fmt, tconsts=tconsts); src = tg.gen(ntop)
     cfgkw = dict(cfgkw or {})
+    cfgkw.setdefault("switches", {"V": "ZZ"})
     if fmt: cfgkw.update(fontdefault="F1", fonts={"F1": FMT_FONT})
     if porywrap: cfgkw["switches"] = {"V": "ZZ"}
     cfg = base_cfg(**cfgkw)
@@ -384,7 +389,7 @@ def oracle_C06(case, res):
     texts, moves = text_blocks(text)
     ref = {}
     for ln in text.split("\n"):
-        m = re.match(r"^\t(tc\d+) (?:1, )?(\S+)$", ln)
+        m = re.match(r"^\t(tc\d+) (?:1, |F \( 1, 2 \), )?(\S+)$", ln)
         if m: ref[m.group(1)] = m.group(2)
         m = re.match(r"^\tavtext (\d+), (\S*)$", ln)
         if m: ref["avtext:" + m.group(1)] = m.group(2)
@@ -491,7 +496,8 @@ def gen_C09(rnd, n, tier):
         srcparts = []; vals = []
         for p in parts:
             if " " in p and rnd.random() < 0.2:
-                k = p.index(" "); srcparts.append('"%s%s     %s"' % (p[:k], rnd.choice(["\n", "\n", "\r\n"]), p[k + 1:])); vals.append(p)
+                k = p.index(" "); ub = rnd.choice(["", "", "\u3000", "\u00a0"])      # a Unicode blank that starts the continuation line is text
+                srcparts.append('"%s%s     %s%s"' % (p[:k], rnd.choice(["\n", "\n", "\r\n"]), ub, p[k + 1:])); vals.append(p[:k] + " " + ub + p[k + 1:])
             else: srcparts.append('"%s"' % p); vals.append(p)
         # Go joins parts with "\n" only when the text so far is non-empty
         value = ""
@@ -671,7 +677,8 @@ def gen_C14(rnd, n, tier):
                     else: src.append("poryswitch(V) { _ { walk_right } A { jump_a jump_b * 2 } }"); steps += ["jump_a", "jump_b", "jump_b"]
                     continue
                 if rnd.random() < 0.4:
-                    mult, val = rnd.choice([("2", 2), ("1", 1), ("0x3", 3), ("010", 8), ("9999", 9999), ("0", None), ("10000", None), ("-2", None), ("0x", None), ("09", None), ("3", 3)])
+                    mult, val = rnd.choice([("2", 2), ("1", 1), ("0x3", 3), ("010", 8), ("9999", 9999), ("0", None), ("10000", None), ("-2", None), ("0x", None), ("09", None), ("3", 3),
+                                                  ("65536", None), ("65537", None), ("0x10001", None), ("75535", None), ("4294967297", None), ("9223372036854775807", None), ("0x7fffffffffffffff", None)])
                     src.append("%s * %s" % (st, mult))
                     if val is None:
                         if err is None: err = mult
@@ -791,6 +798,8 @@ def gen_C16(rnd, n, tier):
     for i in range(n):
         tg = TopGen(rnd, tier); src0 = tg.gen(rnd.randint(1, 4))
         src = relayout(src0, rnd) if rnd.random() < 0.8 else src0
+        if rnd.random() < 0.3: src = rnd.choice(["\n\n", "  \n", "\r\n", "\t", "# header\n\n", " "]) + src     # the file may start with blank lines
+        if rnd.random() < 0.2: src = src + rnd.choice(["\n\n\n", "  ", "\n# eof"])
         path = rnd.choice(["in.pory", "dir\\sub\\file.pory", "a b.pory", ""])
         opt = rnd.random() < 0.5
         grp = []
